@@ -484,3 +484,124 @@ def combine_filtered(it, opn, a, b, node):
         if len(fa.axes) != len(fb.axes) or any(x.sym != y.sym for x, y in zip(fa.axes, fb.axes)):
             return None
     return Filtered(fa.src, mk(opn, ga, gb), axes, fa.transformed, fa.real and fb.real)
+
+
+# ------------------------------------------------------------------------------------------------ stacks of component grids
+class CompStack(AV):
+    """a (k, ...) array whose k components are index functions over one common grid: np.array(np.meshgrid(...)), its
+    reshape(k, -1) (flat = C-order flattening of the grid), reversals along either dimension, tiles of per-component
+    constants, and element-wise arithmetic between such stacks"""
+
+    def __init__(self, comps, axes, flat=False):
+        self.comps = list(comps)
+        self.axes = list(axes) if axes is not None else None  # None: per-component constants not yet broadcast over a grid
+        self.flat = flat
+        self.space = None
+        self.term = call("compstack", *self.comps)
+
+    def like(self, comps, axes=None, flat=None):
+        return CompStack(comps, self.axes if axes is None else axes, self.flat if flat is None else flat)
+
+    def __repr__(self):
+        return f"CompStack({[tm.show(c)[:30] for c in self.comps]}, flat={self.flat})"
+
+
+def linspace(it, args, kwargs, node):
+    """np.linspace(a, b, n): element j = a + j*(b-a)/(n-1)"""
+    if len(args) < 3 and "num" not in kwargs:
+        return None
+    a, b = to_term(args[0]), to_term(args[1])
+    n = to_term(args[2] if len(args) > 2 else kwargs["num"])
+    idx = it.index_symbol(n)
+    step = mk("div", mk("sub", b, a), mk("sub", n, const(1)))
+    r = Val(mk("add", a, mk("mul", idx, step)))
+    r.axes = [Axis(idx, n, name="linspace")]
+    r.length = n
+    return r
+
+
+def meshgrid(it, args, kwargs, node):
+    ind = kwargs.get("indexing")
+    if ind is None or not is_pyconst(ind) or pyval(ind) != "ij":
+        return None
+    vs = list(args)
+    if not vs or not all(isinstance(v, Val) and getattr(v, "axes", None) is not None and len(v.axes) == 1 for v in vs):
+        return None
+    grid = [v.axes[0] for v in vs]
+    out = []
+    for v in vs:
+        g = Val(v.term)
+        g.axes = list(grid)
+        out.append(g)
+    return Seq(out, "list")
+
+
+def stack_from_seq(seq):
+    items = seq.items if isinstance(seq, Seq) else None
+    if not items or not all(isinstance(v, Val) and getattr(v, "axes", None) is not None for v in items):
+        return None
+    ax0 = items[0].axes
+    if not all(len(v.axes) == len(ax0) and all(x.sym == y.sym for x, y in zip(v.axes, ax0)) for v in items):
+        return None
+    return CompStack([v.term for v in items], ax0, flat=False)
+
+
+def stack_reshape(cs, shape):
+    """reshape(k, -1) flattens the grid; reshape(<grid shape>) of a reduced stack is handled by the caller"""
+    items = shape.items if isinstance(shape, Seq) else None
+    if items and len(items) == 2 and is_pyconst(items[0]) and pyval(items[0]) == len(cs.comps) and is_pyconst(items[1]) and pyval(items[1]) == -1:
+        return cs.like(cs.comps, flat=True)
+    return None
+
+
+def stack_getitem(cs, idx):
+    """[::-1] on the component axis; [:, ::-1] on the flattened grid (position p -> N-1-p, i.e. every grid index i -> n-1-i)"""
+    def is_rev(s):
+        return isinstance(s, SliceV) and s.lower is None and s.upper is None and s.step is not None and is_pyconst(s.step) and pyval(s.step) == -1
+
+    def is_full(s):
+        return isinstance(s, SliceV) and s.is_full()
+
+    if is_rev(idx):
+        return cs.like(list(reversed(cs.comps)))
+    if isinstance(idx, Seq) and len(idx.items) == 2 and is_full(idx.items[0]) and is_rev(idx.items[1]) and cs.flat and cs.axes is not None:
+        m = {A.sym: mk("sub", mk("sub", A.n, const(1)), A.sym) for A in cs.axes}
+        return cs.like([tm.subst(c, m) for c in cs.comps])
+    return None
+
+
+def stack_tile(v, reps, like):
+    """np.tile(<k-vector>.reshape(k, 1), (1, N)): per-component constants broadcast over the flattened grid of `like`"""
+    a = v if isinstance(v, Arr) else None
+    if a is None or not (isinstance(reps, Seq) and len(reps.items) == 2 and is_pyconst(reps.items[0]) and pyval(reps.items[0]) == 1):
+        return None
+    n = reps.items[1]
+    src = getattr(n, "stack_of", None)
+    if src is None:
+        return None
+    return CompStack(list(a.cols), src.axes, flat=True)
+
+
+def stack_arith(opn, a, b):
+    ca, cb = isinstance(a, CompStack), isinstance(b, CompStack)
+    if ca and cb:
+        if len(a.comps) != len(b.comps):
+            raise Unsupported("arithmetic between component stacks of different height")
+        return a.like([mk(opn, x, y) for x, y in zip(a.comps, b.comps)])
+    s, o, left = (a, b, True) if ca else (b, a, False)
+    if isinstance(o, Arr) or not hasattr(o, "term") and not is_pyconst(o):
+        raise Unsupported("arithmetic between a component stack and a non-scalar")
+    t = to_term(o)
+    return s.like([mk(opn, c, t) if left else mk(opn, t, c) for c in s.comps])
+
+
+def stack_sum(cs, axis):
+    if axis != 0:
+        return None
+    t = cs.comps[0]
+    for c in cs.comps[1:]:
+        t = mk("add", t, c)
+    r = Val(t)
+    r.axes = list(cs.axes) if cs.axes is not None else None
+    r.flat_grid = cs.flat
+    return r
